@@ -98,6 +98,8 @@ def apply_op(f, op, kind, is_ref):
         return list(f)
     if name == 'dr':
         return [x for x in f]
+    if name == 'ro':
+        return None if is_ref else f.rollover()
     raise ValueError('unknown op %r' % (op,))
 
 
@@ -114,8 +116,7 @@ def reference(case):
         n = len(ref.getvalue())
         if name == 'w' and ref.tell() != n:
             appending = False
-            if text:
-                in_domain = False          # the model is only claimed for appending writes of text
+            in_domain = False              # the statement is about appending writes
         if name == 'sk' and op[1] > n:
             in_domain = False
         if name == 'sc' and ref.tell() + op[1] > n:
@@ -131,9 +132,14 @@ def reference(case):
     return in_domain, appending, recs
 
 
+def mfr_text(case):
+    """MultiFileReader() with no members joins with '' (all([]) is True): a text reader"""
+    return bool(case['text']) or not case['files']
+
+
 def mfr_expected(case):
     """plain restatement: one string, one cursor"""
-    text = case['text']
+    text = mfr_text(case)
     parts = case['files'] if text else [bytes.fromhex(p) for p in case['files']]
     whole = ('' if text else b'').join(parts)
     pos = 0
@@ -158,14 +164,14 @@ class C18(Property):
     THOROUGH_BUDGET_S = 600
     RULE = ('a case is one whole history on one object. B/S: SpooledBytesIO / SpooledStringIO(max_size) and a list of '
             'write / read(n) / read() / readline() / readline(n) (bytes) / readlines() / seek(p) / seek(n, SEEK_CUR) / '
-            'seek(.., SEEK_END) / tell / getvalue / len / next / list(f) / for-loop ops; writes append (a seek to the end '
+            'seek(.., SEEK_END) / tell / getvalue / len / next / list(f) / for-loop / explicit rollover() ops; writes append (a seek to the end '
             'is inserted when needed), seek targets lie inside the data; every history ends with getvalue and tell, and '
             'tell() is recorded after every op; the same history is run for max_size in {1, a mid value, larger than the '
             'data} and (S) READ_CHUNK_SIZE in {small patched values, the real one}. Exhaustive: every op sequence up to '
-            'length 2 (3 thorough) over a 19-op alphabet after one write, for 2-3 contents; random histories over units '
+            'length 2 (3 thorough) over a 20-op alphabet after one write, for 2-3 contents; random histories over units '
             'with 1-4 byte characters and LF / CRLF / CR; adversarial: lines of 70-75 and 142-147 characters with CR / CRLF '
             'on the 72 / 144 read edge of the codec reader, multi-byte reads that overshoot, texts longer than '
-            'READ_CHUNK_SIZE. SpooledBytesIO histories with overwriting writes are run for the correspondence only. '
+            'READ_CHUNK_SIZE. '
             'M: MultiFileReader over every partition of a short content into 0-3 members (bytes and text; io, spooled or '
             'temporary-file members) x every op sequence up to length 2 (3 thorough) over read(1..3, 9) / read() / read(0) / '
             'seek(0), plus random ones. Non-trivial = B/S: data was written, a read or iteration returned data after a seek '
@@ -177,6 +183,7 @@ class C18(Property):
                    'the reference for SpooledStringIO is io.StringIO(newline=""): LF, CR and CRLF end a line, untranslated',
                    'seek(n, SEEK_CUR) / seek(n, SEEK_END) on SpooledStringIO are judged as code-point moves (n forward / '
                    'only n = 0 from the end), the forms io.StringIO itself supports being the n = 0 ones',
+                   'f.rollover() (what fileno() does first) may be called at any point: io reference = no-op',
                    'readlines(sizehint > 0) and readline(0) are outside the statement (CPython\'s BytesIO and BufferedRandom '
                    'differ on the hint themselves); positions beyond the data are outside the statement']
     EXTRA_TRUSTED = ['CPython 3.12 codecs.StreamReader.read/readline/seek/reset and StreamRecoder wrappers, transliterated by '
@@ -211,7 +218,7 @@ class C18(Property):
             yield c
         for c in self.adversarial(rng, 60 if self.thorough else 6):
             yield c
-        n = 60000 if self.thorough else 1500
+        n = 60000 if self.thorough else 3500
         for i in range(n):
             r = rng.random()
             if r < 0.2:
@@ -255,13 +262,13 @@ class C18(Property):
 
     def exhaustive(self, depth):
         """every op sequence up to `depth` over a fixed alphabet, after one write"""
-        for kind, contents in (('B', [b'ab\nc', b'\n\xc3\xa9\r\nx']), ('S', ['\xe9ab', 'a\r\n日\n', '\U0001f600\r\xe9'])):
+        for kind, contents in (('B', [b'ab\nc', b'\n\xc3\xa9\r\nx']), ('S', ['\xe9ab', 'a\r\n日\n', '\U0001f600\r\xe9', 'a\nb\r\n\rc'])):
             for content in contents:
                 n = len(content)
                 first = ['w', content.hex() if kind == 'B' else content]
                 extra = ['w', b'y\n'.hex() if kind == 'B' else '\xe9\n']
                 alpha = [['r', 1], ['r', 2], ['ra'], ['rl'], ['rs'], ['sk', 0], ['sk', 1], ['sk', 2], ['sk', n],
-                         ['sc', 1], ['se', 0], ['t'], ['g'], ['l'], ['n'], ['it'], ['dr'], extra]
+                         ['sc', 1], ['se', 0], ['t'], ['g'], ['l'], ['n'], ['it'], ['dr'], ['ro'], extra]
                 alpha.append(['rL', 2] if kind == 'B' else ['r', 3])
                 for d in range(depth + 1):
                     for seq in itertools.product(alpha, repeat=d):
@@ -281,10 +288,18 @@ class C18(Property):
         ref = io.StringIO(newline='') if text else io.BytesIO()
         units = S_UNITS if text else B_UNITS
         ops = []
-        overwrite = (not text) and rng.random() < 0.08
+        overwrite = False
         nops = rng.randint(1, 10)
 
+        liney = rng.random() < 0.35
+
         def payload():
+            if liney:       # many short lines: the codec reader caches the lines of one chunk
+                parts = [rng.choice(units[:5] if text else units[:3]) * rng.randint(0, 2) + rng.choice(units[5:8] if text else units[3:6])
+                         for _ in range(rng.randint(2, 6))]
+                if rng.random() < 0.5:
+                    parts.append(rng.choice(units[:4]))
+                return ''.join(parts) if text else b''.join(parts)
             if long and rng.random() < 0.6:
                 n = rng.choice([70, 71, 72, 73, 74, 143, 144, 145, 150, 300])
                 wide = S_WIDE if text else [b'a', b'\xc3\xa9']
@@ -295,7 +310,7 @@ class C18(Property):
         for i in range(nops):
             n = len(ref.getvalue())
             o = rng.choice(['w', 'w', 'r', 'r', 'ra', 'rl', 'rl', 'rs', 'sk', 'sk', 'sc', 'se', 't', 'g', 'l', 'n', 'n',
-                            'it', 'dr', 'rL'] if i else ['w'])
+                            'it', 'dr', 'rL', 'ro'] if i else ['w'])
             if o == 'w':
                 if ref.tell() != n and not overwrite:
                     op = rng.choice([['sk', n], ['se', 0]])
@@ -320,7 +335,7 @@ class C18(Property):
         ops += [['g'], ['t']]
         case = {'k': kind, 'ops': ops}
         if overwrite:
-            case['ow'] = 1
+            case['ow'] = 1  # (not generated any more)
         return case
 
     def adversarial(self, rng, n):
@@ -328,6 +343,7 @@ class C18(Property):
         def lines_case(lens, ends, fill):
             text = ''.join(''.join(rng.choice(fill) for _ in range(ln)) + e for ln, e in zip(lens, ends))
             tail = rng.choice([[['sk', 0], ['rl'], ['t'], ['rl'], ['n'], ['l'], ['rl'], ['ra']],
+                               [['sk', 0], ['rl'], ['ro'], ['rl'], ['n'], ['ra']],
                                [['sk', 0], ['n'], ['n'], ['g'], ['n'], ['it']],
                                [['sk', 0], ['rl'], ['r', 3], ['rl'], ['rs']],
                                [['sk', 1], ['dr']],
@@ -343,7 +359,7 @@ class C18(Property):
             # reads that stop inside / overshoot multi-byte characters, then every kind of follow-up
             text = ''.join(rng.choice(['a', '\xe9', '\xe9', '日', '\U0001f600', '\n']) for _ in range(rng.randint(3, 9)))
             k = rng.randint(1, 4)
-            follow = rng.choice([[['l'], ['ra']], [['it']], [['rl'], ['t'], ['ra']], [['g'], ['r', 1], ['t'], ['dr']],
+            follow = rng.choice([[['ro'], ['ra']], [['ro'], ['rl'], ['t'], ['n']], [['l'], ['ra']], [['it']], [['rl'], ['t'], ['ra']], [['g'], ['r', 1], ['t'], ['dr']],
                                  [['n'], ['l'], ['n']], [['rs']], [['sc', 1], ['ra']] if len(text) > k else [['ra']],
                                  [['se', 0], ['w', '\xe9a'], ['sk', k], ['ra']]])
             case = {'k': 'S', 'ops': [['w', text], ['sk', 0], ['r', k]] + follow + [['g'], ['t']]}
@@ -416,7 +432,7 @@ class C18(Property):
     def line(self, case):
         if case['k'] == 'M':
             files = [hx(p.encode('utf-8')) for p in case['files']] if case['text'] else [p or '-' for p in case['files']]
-            toks = ['M', 't' if case['text'] else 'b', str(len(files))] + files
+            toks = ['M', 't' if mfr_text(case) else 'b', str(len(files))] + files
             for op in case['ops']:
                 toks.append('s' if op[0] == 's' else 'ra' if op[0] == 'ra' else 'r%d' % op[1])
             return ' '.join(toks)
@@ -499,7 +515,7 @@ class C18(Property):
                         v = mfr.read()
                     else:
                         v = mfr.read(op[1])
-                    out.append({'r': canon(v, text)})
+                    out.append({'r': canon(v, mfr_text(case))})
                     self.stats['mop:' + op[0]] = self.stats.get('mop:' + op[0], 0) + 1
         except CaseTimeout:
             out.append({'exc': 'CaseTimeout'})
@@ -532,7 +548,7 @@ class C18(Property):
             return self.oracle_mfr(case, obs)
         in_domain, appending, exp = reference(case)
         if not in_domain or not appending:
-            return None        # outside the statement (overwriting writes: correspondence only)
+            return None        # outside the statement
         text = case['k'] == 'S'
         seen_move = False
         useful = False
